@@ -44,6 +44,10 @@ type Route struct {
 	Cost             uint64
 	Flags            uint64
 	ExpirationPeriod *time.Duration
+
+	// expirationTimer removes the route from the RIB once its ExpirationPeriod has elapsed
+	// (nil for a route that does not expire). Guarded by the RIB mutex.
+	expirationTimer *time.Timer
 }
 
 // Route flags.
@@ -193,12 +197,45 @@ func (r *RibTable) AddEncRoute(name enc.Name, route *Route) {
 			existingRoute.Cost = route.Cost
 			existingRoute.Flags = route.Flags
 			existingRoute.ExpirationPeriod = route.ExpirationPeriod
+			r.scheduleExpiration(name, existingRoute)
 			return
 		}
 	}
 
 	node.routes = append(node.routes, route)
+	r.scheduleExpiration(name, route)
 	readvertiseAnnounce(name, route)
+}
+
+// scheduleExpiration (re)starts the expiration of a route that is in the RIB: the route is
+// removed when its ExpirationPeriod has elapsed, counted from now; a route without
+// ExpirationPeriod stays until it is unregistered. The caller holds the RIB mutex.
+func (r *RibTable) scheduleExpiration(name enc.Name, route *Route) {
+	route.stopExpiration()
+	if route.ExpirationPeriod == nil {
+		return
+	}
+
+	var timer *time.Timer
+	timer = time.AfterFunc(*route.ExpirationPeriod, func() {
+		r.mutex.Lock()
+		defer r.mutex.Unlock()
+		// The route may have been registered again (another timer is running for it, or
+		// none), unregistered, or removed together with its face in the meantime
+		if route.expirationTimer != timer {
+			return
+		}
+		r.removeRouteEnc(name, route.FaceID, route.Origin)
+	})
+	route.expirationTimer = timer
+}
+
+// stopExpiration cancels the pending expiration of the route, if any. The caller holds the RIB mutex.
+func (r *Route) stopExpiration() {
+	if r.expirationTimer != nil {
+		r.expirationTimer.Stop()
+		r.expirationTimer = nil
+	}
 }
 
 // GetAllEntries returns all routes in the RIB.
@@ -241,11 +278,16 @@ func (r *RibEntry) GetRoutes() []*Route {
 func (r *RibTable) RemoveRouteEnc(name enc.Name, faceID uint64, origin uint64) {
 	r.mutex.Lock()
 	defer r.mutex.Unlock()
+	r.removeRouteEnc(name, faceID, origin)
+}
 
+// removeRouteEnc removes the specified route from the specified prefix. The caller holds the RIB mutex.
+func (r *RibTable) removeRouteEnc(name enc.Name, faceID uint64, origin uint64) {
 	entry := r.findExactMatchEntryEnc(name)
 	if entry != nil {
 		for i, route := range entry.routes {
 			if route.FaceID == faceID && route.Origin == origin {
+				route.stopExpiration()
 				if i < len(entry.routes)-1 {
 					copy(entry.routes[i:], entry.routes[i+1:])
 				}
@@ -292,6 +334,7 @@ func (r *RibEntry) removeFaceRoutes(faceId uint64) {
 	kept := make([]*Route, 0, len(r.routes))
 	for _, route := range r.routes {
 		if route.FaceID == faceId {
+			route.stopExpiration()
 			readvertiseWithdraw(r.Name, route)
 		} else {
 			kept = append(kept, route)
